@@ -18,12 +18,16 @@ Model of klippa's GDEF subsetter (post-fix 546e1a4, 507034d, LigCaretList skip-e
   klippa/src/variations.rs
     ItemVariationStore::subset packing order (the table logic is `SubsetHvar.subsetStore`)
 
-The Serializer: an object under construction is its bytes plus its links; `pop_pack(true)` appends
-it to the list of packed objects unless an identical object (bytes AND links) is already packed.
-Objects are laid out root first, then the packed objects last-packed first; an offset is
-`child.head - parent.head`.  A failed child (`pop_discard` / `revert_snapshot`) restores the packed
-list and the parent's bytes: in the model the caller simply keeps its old state.  Buffer growth
-(out-of-room retries) is not modelled.
+Two layers.  (1) `subsetGdefSem`: WHAT survives — the loops of the subsetters on structured input,
+with their error returns, producing the structured output table `GdefOut` (a sub-table that
+fails with `Err(EMPTY)` is discarded by `pop_discard` / `revert_snapshot`: it simply does not appear
+in the output).  (2) `encodeGdef`: HOW it is laid out — the Serializer: an object under
+construction is its bytes plus its links; `pop_pack(true)` appends it to the list of packed objects
+unless an identical object (bytes AND links) is already packed; the objects are pushed in the order
+the code serialises them (variation store first, then mark glyph sets, mark attachment classes,
+ligature carets, attachment list, glyph classes; inside a sub-table children in array order, the
+coverage table last).  Objects are laid out root first, then the packed objects last-packed first;
+an offset is `child.head - parent.head`.  Buffer growth (out-of-room retries) is not modelled.
 -/
 import FontVerif.Model.SubsetLayout
 import FontVerif.Model.SubsetHvar
@@ -60,23 +64,21 @@ def patch (bs : List Nat) (pos : Nat) (v : List Nat) : List Nat := bs.take pos +
 
 def S.assign (s : S) (pos : Nat) (v : List Nat) : S := { s with cur := { s.cur with bytes := patch s.cur.bytes pos v } }
 
-/-- a `subset` / `serialize` implementation run on a freshly pushed object -/
-abbrev Child := Packed → M (LObj × Packed)
+/-- the serialisation of one sub-table on a freshly pushed object: its object and the packed list -/
+abbrev Child := Packed → LObj × Packed
 
-def leaf (bs : List Nat) : Child := fun pk => pure (⟨bs, []⟩, pk)
+def leaf (bs : List Nat) : Child := fun pk => (⟨bs, []⟩, pk)
 
-/-- `O::serialize_subset(t, s, plan, args, pos)` / `serialize_serialize`: push, run the child,
-pop_pack(share) + add_link on success; on error `pop_discard` (the caller keeps its state) -/
-def linkChild (w pos : Nat) (child : Child) (s : S) : M S :=
-  match child s.pk with
-  | .error e => .error e
-  | .ok (o, pk') =>
-    let r := pack pk' o
-    pure { pk := r.1, cur := { s.cur with links := s.cur.links ++ [(pos, w, r.2)] } }
+/-- `O::serialize_subset(t, s, plan, args, pos)` / `serialize_serialize` (success path): push, run the
+child, pop_pack(share) + add_link -/
+def linkChild (w pos : Nat) (child : Child) (s : S) : S :=
+  let (o, pk') := child s.pk
+  let r := pack pk' o
+  { pk := r.1, cur := { s.cur with links := s.cur.links ++ [(pos, w, r.2)] } }
 
-/-- `array.subset_offset(idx, s, plan, args)`: snapshot, allocate the offset field, serialize_subset,
-revert_snapshot on error -/
-def arrayChild (w : Nat) (child : Child) (s : S) : M S :=
+/-- `array.subset_offset(idx, s, plan, args)` (success path): allocate the offset field, then
+serialize_subset -/
+def arrayChild (w : Nat) (child : Child) (s : S) : S :=
   linkChild w s.pos child (s.embed (List.replicate w 0))
 
 /-! ## input tables as read-fonts presents them -/
@@ -217,137 +219,113 @@ def usedMarkSets (p : LPlan) (g : GdefIn) : List Nat :=
 def usedMarkSetsMap (p : LPlan) (g : GdefIn) : List (Nat × Nat) :=
   (usedMarkSets p g).zipIdx
 
-/-! ## sub-table subsetters -/
-
-def coverageChild (p : LPlan) (c : Coverage) : Child := fun pk =>
-  (subsetCoverage p c).map fun w => (⟨w.bytes, []⟩, pk)
-
-def coverageSerializeChild (gs : List Nat) : Child := fun pk =>
-  (serializeCoverage gs).map fun w => (⟨w.bytes, []⟩, pk)
+/-! ## layer 1: what survives (`subset` implementations on structured data) -/
 
 /-- GDEF's class definitions: `remap_class: false, keep_empty_table: false, use_class_zero: true,
 glyph_filter: None` -/
 def gdefCdArgs : CdArgs := { remapClass := false, keepEmpty := false, useClassZero := true, filter := none }
 
-def classDefChild (p : LPlan) (cd : ClassDef) : Child := fun pk =>
-  (subsetClassDef p gdefCdArgs cd).map fun r => (⟨classDefBytes r.1, []⟩, pk)
+/-- written AttachList: coverage and the AttachPoint tables (their bytes) in coverage order -/
+structure AttachOut where
+  cov : CovW
+  points : List (List Nat)
+  deriving Repr
 
-/-- loop of `AttachList::subset`: state, retained new glyph ids (count = their number) -/
+/-- loop of `AttachList::subset`: `(new glyph id, AttachPoint bytes)` of the kept covered glyphs -/
 def attachGo (p : LPlan) (points : List (Option (List Nat))) :
-    List (Nat × Nat) → S → List Nat → M (S × List Nat)
-  | [], s, acc => pure (s, acc)
-  | (glyph, idx) :: rest, s, acc =>
+    List (Nat × Nat) → M (List (Nat × List Nat))
+  | [] => pure []
+  | (glyph, idx) :: rest =>
     match p.get glyph with
-    | none => attachGo p points rest s acc
+    | none => attachGo p points rest
     | some new =>
       match points[idx]? with
-      | some (some bs) =>
-        match arrayChild 2 (leaf bs) s with
-        | .error e => .error e
-        | .ok s' => attachGo p points rest s' (acc ++ [new])
+      | some (some bs) => (attachGo p points rest).map ((new, bs) :: ·)
       | _ => .error .soft
 
 /-- `AttachList::subset` -/
-def attachListChild (p : LPlan) (a : AttachListIn) : Child := fun pk =>
+def attachSem (p : LPlan) (a : AttachListIn) : M AttachOut :=
   match a.cov with
   | none => .error .hard
   | some cov =>
-    let items := (cov.glyphs.zipIdx).take (min p.numGlyphs a.glyphCount)
-    match attachGo p a.points items ⟨pk, ⟨be16 0 ++ be16 0, []⟩⟩ [] with
+    match attachGo p a.points ((cov.glyphs.zipIdx).take (min p.numGlyphs a.glyphCount)) with
     | .error e => .error e
-    | .ok (s, retained) =>
-      if retained.isEmpty then .error .empty else
-      match linkChild 2 0 (coverageSerializeChild retained) (s.assign 2 (be16 retained.length)) with
-      | .error e => .error e
-      | .ok s' => pure (s'.cur, s'.pk)
+    | .ok entries =>
+      if entries.isEmpty then .error .empty else
+      (serializeCoverage (entries.map (·.1))).map fun c => { cov := c, points := entries.map (·.2) }
+
+/-- a written caret value: formats 1 / 2 copied, format 3 with the subset device bytes -/
+inductive CaretOut where
+  | plain (bytes : List Nat)
+  | f3 (coord : Nat) (dev : List Nat)
+  deriving Repr, DecidableEq
 
 /-- `CaretValue::subset` -/
-def caretChild (vmap : List (Nat × Nat)) : CaretIn → Child
-  | .bad => fun _ => .error .soft
-  | .f1 bs => leaf bs
-  | .f2 bs => leaf bs
-  | .f3 coord dev => fun pk =>
+def caretSem (vmap : List (Nat × Nat)) : CaretIn → M CaretOut
+  | .bad => .error .soft
+  | .f1 bs => pure (.plain bs)
+  | .f2 bs => pure (.plain bs)
+  | .f3 coord dev =>
     match dev with
     | none => .error .hard
-    | some d =>
-      let devChild : Child := fun pk => (subsetDevice vmap d).map fun bs => (⟨bs, []⟩, pk)
-      match linkChild 2 4 devChild ⟨pk, ⟨be16 3 ++ be16 coord ++ be16 0, []⟩⟩ with
-      | .error e => .error e
-      | .ok s => pure (s.cur, s.pk)
-
-def caretsGo (vmap : List (Nat × Nat)) : List CaretIn → S → M S
-  | [], s => pure s
-  | c :: rest, s =>
-    match arrayChild 2 (caretChild vmap c) s with
-    | .error e => .error e
-    | .ok s' => caretsGo vmap rest s'
+    | some d => (subsetDevice vmap d).map (.f3 coord ·)
 
 /-- `LigGlyph::subset`: every caret value is subset (any error aborts); no caret = `Err(EMPTY)` -/
-def ligGlyphChild (vmap : List (Nat × Nat)) (carets : List CaretIn) : Child := fun pk =>
-  match caretsGo vmap carets ⟨pk, ⟨be16 0, []⟩⟩ with
+def ligGlyphSem (vmap : List (Nat × Nat)) (carets : List CaretIn) : M (List CaretOut) :=
+  match carets.mapM (caretSem vmap) with
   | .error e => .error e
-  | .ok s =>
-    if carets.isEmpty then .error .empty else
-    pure ((s.assign 0 (be16 carets.length)).cur, s.pk)
+  | .ok out => if out.isEmpty then .error .empty else pure out
+
+structure LigOut where
+  cov : CovW
+  ligs : List (List CaretOut)
+  deriving Repr
 
 /-- loop of `LigCaretList::subset` (a LigGlyph that subsets to empty is skipped) -/
 def ligListGo (p : LPlan) (vmap : List (Nat × Nat)) (ligs : List LigIn) :
-    List (Nat × Nat) → S → List Nat → M (S × List Nat)
-  | [], s, acc => pure (s, acc)
-  | (glyph, idx) :: rest, s, acc =>
+    List (Nat × Nat) → M (List (Nat × List CaretOut))
+  | [] => pure []
+  | (glyph, idx) :: rest =>
     match p.get glyph with
-    | none => ligListGo p vmap ligs rest s acc
+    | none => ligListGo p vmap ligs rest
     | some new =>
       match ligs[idx]? with
       | some (.ok carets) =>
-        match arrayChild 2 (ligGlyphChild vmap carets) s with
-        | .error .empty => ligListGo p vmap ligs rest s acc
+        match ligGlyphSem vmap carets with
+        | .error .empty => ligListGo p vmap ligs rest
         | .error e => .error e
-        | .ok s' => ligListGo p vmap ligs rest s' (acc ++ [new])
+        | .ok out => (ligListGo p vmap ligs rest).map ((new, out) :: ·)
       | _ => .error .soft
 
 /-- `LigCaretList::subset` -/
-def ligCaretListChild (p : LPlan) (vmap : List (Nat × Nat)) (l : LigCaretListIn) : Child := fun pk =>
+def ligSem (p : LPlan) (vmap : List (Nat × Nat)) (l : LigCaretListIn) : M LigOut :=
   match l.cov with
   | none => .error .hard
   | some cov =>
-    let items := (cov.glyphs.zipIdx).take (min p.numGlyphs l.count)
-    match ligListGo p vmap l.ligs items ⟨pk, ⟨be16 0 ++ be16 0, []⟩⟩ [] with
+    match ligListGo p vmap l.ligs ((cov.glyphs.zipIdx).take (min p.numGlyphs l.count)) with
     | .error e => .error e
-    | .ok (s, retained) =>
-      if retained.isEmpty then .error .empty else
-      match linkChild 2 0 (coverageSerializeChild retained) (s.assign 2 (be16 retained.length)) with
-      | .error e => .error e
-      | .ok s' => pure (s'.cur, s'.pk)
+    | .ok entries =>
+      if entries.isEmpty then .error .empty else
+      (serializeCoverage (entries.map (·.1))).map fun c => { cov := c, ligs := entries.map (·.2) }
 
-/-- loop of `MarkGlyphSets::subset`: a coverage that subsets to empty is skipped; returns the state
-and the number of sets written -/
-def markSetsGo (p : LPlan) : List (Option Coverage) → S → Nat → M (S × Nat)
-  | [], s, n => pure (s, n)
-  | none :: _, _, _ => .error .soft
-  | some c :: rest, s, n =>
-    match arrayChild 4 (coverageChild p c) s with
-    | .error .empty => markSetsGo p rest s n
+/-- loop of `MarkGlyphSets::subset`: a coverage that subsets to empty is skipped -/
+def markSetsGo (p : LPlan) : List (Option Coverage) → M (List CovW)
+  | [] => pure []
+  | none :: _ => .error .soft
+  | some c :: rest =>
+    match subsetCoverage p c with
+    | .error .empty => markSetsGo p rest
     | .error e => .error e
-    | .ok s' => markSetsGo p rest s' (n + 1)
+    | .ok w => (markSetsGo p rest).map (w :: ·)
 
-/-- `MarkGlyphSets::subset` -/
-def markSetsChild (p : LPlan) (m : MarkSetsIn) : Child := fun pk =>
-  match markSetsGo p m.sets ⟨pk, ⟨be16 m.format ++ be16 0, []⟩⟩ 0 with
+/-- `MarkGlyphSets::subset`: format and the surviving coverage tables -/
+def markSetsSem (p : LPlan) (m : MarkSetsIn) : M (Nat × List CovW) :=
+  match markSetsGo p m.sets with
   | .error e => .error e
-  | .ok (s, n) =>
-    if n = 0 then .error .empty else pure ((s.assign 2 (be16 n)).cur, s.pk)
+  | .ok sets => if sets.isEmpty then .error .empty else pure (m.format, sets)
 
-def varDataGo : List Tent.SubTable → S → M S
-  | [], s => pure s
-  | st :: rest, s =>
-    match arrayChild 4 (leaf (SubsetHvar.subBytes st)) s with
-    | .error e => .error e
-    | .ok s' => varDataGo rest s'
-
-/-- `ItemVariationStore::subset(inner_maps)` as one object tree: format, region list (packed first),
-count, one ItemVariationData per non-empty inner map -/
-def storeChild (st : StoreIn) (inner : List (List Nat)) : Child := fun pk =>
+/-- `ItemVariationStore::subset(inner_maps)` (table logic: `SubsetHvar.subsetStore`) -/
+def storeSem (st : StoreIn) (inner : List (List Nat)) : M (Nat × SubsetHvar.StoreOut) :=
   if inner.isEmpty then .error .empty else
   match st.regions with
   | none => .error .soft
@@ -361,52 +339,111 @@ def storeChild (st : StoreIn) (inner : List (List Nat)) : Child := fun pk =>
       | .error .fail => .error .hard
       | .error .trap => .error .trap
       | .error .dropped => .error .soft
-      | .ok o =>
-        let s0 : S := ⟨pk, ⟨be16 st.format ++ be32 0, []⟩⟩
-        match linkChild 4 2 (leaf (SubsetHvar.regionListBytes o.axisCount o.regions)) s0 with
-        | .error e => .error e
-        | .ok s1 =>
-          match varDataGo o.subs (s1.embed (be16 0)) with
-          | .error e => .error e
-          | .ok s2 => pure ((s2.assign 6 (be16 o.subs.length)).cur, s2.pk)
+      | .ok o => pure (st.format, o)
 
-/-! ## `subset_gdef` -/
+/-- the written GDEF table -/
+structure GdefOut where
+  major : Nat
+  /-- minor version as written (after the downgrade) -/
+  minor : Nat
+  glyphClassDef : Option ClassDef
+  attachList : Option AttachOut
+  ligCaretList : Option LigOut
+  markAttachClassDef : Option ClassDef
+  /-- format, coverage tables -/
+  markGlyphSets : Option (Nat × List CovW)
+  /-- format, store -/
+  varStore : Option (Nat × SubsetHvar.StoreOut)
+  deriving Repr
 
-/-- one optional sub-table behind a 16-bit header offset: `(written?, state)` -/
-def optChild {α : Type} (t : Tbl α) (w pos : Nat) (mk : α → Child) (s : S) : M (Bool × S) :=
+/-- one optional sub-table: unreadable = error, `Err(EMPTY)` = omitted, other errors abort -/
+def optSem {α β : Type} (t : Tbl α) (f : α → M β) : M (Option β) :=
   match t with
-  | .absent => pure (false, s)
+  | .absent => pure none
   | .bad => .error .soft
   | .ok x =>
-    match linkChild w pos (mk x) s with
-    | .ok s' => pure (true, s')
-    | .error .empty => pure (false, s)
+    match f x with
+    | .ok y => pure (some y)
+    | .error .empty => pure none
     | .error e => .error e
 
-/-- `subset_gdef(gdef, plan, s)`: the root object and the packed objects -/
-def subsetGdefObj (p : LPlan) (g : GdefIn) : M (LObj × Packed) := do
+/-- `subset_gdef(gdef, plan, s)`: the store is subset only for minor >= 3, the mark glyph sets only
+for minor >= 2; without a store the version is lowered to 1.2 (mark glyph sets written) or 1.0;
+`Err(EMPTY)` when nothing is written -/
+def subsetGdefSem (p : LPlan) (g : GdefIn) : M GdefOut := do
   let vp := varPlan p g
-  let s0 : S := ⟨[], ⟨be16 g.major ++ be16 g.minor ++ List.replicate 8 0, []⟩⟩
-  let s1 := if g.minor ≥ 2 then s0.embed (be16 0) else s0
-  -- the variation store first, so that it ends up last
-  let (hasStore, s2) ←
-    if g.minor ≥ 3 then optChild g.varStore 4 s1.pos (fun st => storeChild st vp.inner) (s1.embed (be32 0))
-    else pure (false, s1)
-  -- a store that was not written: `revert_snapshot(snapshot_version2)` / nothing embedded
-  let s2 := if hasStore then s2 else s1
-  let (hasSets, s3) ←
-    if g.minor ≥ 2 then optChild g.markGlyphSets 2 12 (markSetsChild p) s2 else pure (false, s2)
-  -- downgrade
-  let s4 :=
-    if hasStore then s3
-    else if hasSets then s3.assign 2 (be16 2)
-    else { pk := s3.pk, cur := ⟨(patch s3.cur.bytes 2 (be16 0)).take 12, []⟩ }
-  let (hasMac, s5) ← optChild g.markAttachClassDef 2 10 (classDefChild p) s4
-  let (hasLig, s6) ← optChild g.ligCaretList 2 8 (ligCaretListChild p vp.vmap) s5
-  let (hasAtt, s7) ← optChild g.attachList 2 6 (attachListChild p) s6
-  let (hasCls, s8) ← optChild g.glyphClassDef 2 4 (classDefChild p) s7
-  if hasCls || hasAtt || hasLig || hasMac || (decide (g.minor ≥ 2) && hasSets) || (decide (g.minor ≥ 3) && hasStore)
-  then pure (s8.cur, s8.pk) else throw .empty
+  let store ← if g.minor ≥ 3 then optSem g.varStore (fun st => storeSem st vp.inner) else pure none
+  let sets ← if g.minor ≥ 2 then optSem g.markGlyphSets (markSetsSem p) else pure none
+  let minor := if store.isSome then g.minor else if sets.isSome then 2 else 0
+  let mac ← optSem g.markAttachClassDef (fun cd => (subsetClassDef p gdefCdArgs cd).map (·.1))
+  let lig ← optSem g.ligCaretList (ligSem p vp.vmap)
+  let att ← optSem g.attachList (attachSem p)
+  let cls ← optSem g.glyphClassDef (fun cd => (subsetClassDef p gdefCdArgs cd).map (·.1))
+  if cls.isSome || att.isSome || lig.isSome || mac.isSome || sets.isSome || store.isSome then
+    pure { major := g.major, minor, glyphClassDef := cls, attachList := att, ligCaretList := lig,
+           markAttachClassDef := mac, markGlyphSets := sets, varStore := store }
+  else throw .empty
+
+/-! ## layer 2: how it is laid out (Serializer objects in the order the code pushes them) -/
+
+def foldChildren (w : Nat) (children : List Child) (s : S) : S :=
+  children.foldl (fun s c => arrayChild w c s) s
+
+/-- `AttachList::subset`: header, one AttachPoint object per retained glyph, the coverage last -/
+def encAttach (o : AttachOut) : Child := fun pk =>
+  let s := foldChildren 2 (o.points.map leaf) ⟨pk, ⟨be16 0 ++ be16 o.points.length, []⟩⟩
+  let s := linkChild 2 0 (leaf o.cov.bytes) s
+  (s.cur, s.pk)
+
+/-- `CaretValue::subset` -/
+def encCaret : CaretOut → Child
+  | .plain bs => leaf bs
+  | .f3 coord dev => fun pk =>
+    let s := linkChild 2 4 (leaf dev) ⟨pk, ⟨be16 3 ++ be16 coord ++ be16 0, []⟩⟩
+    (s.cur, s.pk)
+
+/-- `LigGlyph::subset` -/
+def encLigGlyph (carets : List CaretOut) : Child := fun pk =>
+  let s := foldChildren 2 (carets.map encCaret) ⟨pk, ⟨be16 carets.length, []⟩⟩
+  (s.cur, s.pk)
+
+/-- `LigCaretList::subset` -/
+def encLig (o : LigOut) : Child := fun pk =>
+  let s := foldChildren 2 (o.ligs.map encLigGlyph) ⟨pk, ⟨be16 0 ++ be16 o.ligs.length, []⟩⟩
+  let s := linkChild 2 0 (leaf o.cov.bytes) s
+  (s.cur, s.pk)
+
+/-- `MarkGlyphSets::subset` -/
+def encMarkSets (m : Nat × List CovW) : Child := fun pk =>
+  let s := foldChildren 4 (m.2.map fun w => leaf w.bytes) ⟨pk, ⟨be16 m.1 ++ be16 m.2.length, []⟩⟩
+  (s.cur, s.pk)
+
+/-- `ItemVariationStore::subset`: format, region list (packed first), count, one ItemVariationData
+per retained subtable -/
+def encStore (st : Nat × SubsetHvar.StoreOut) : Child := fun pk =>
+  let s := linkChild 4 2 (leaf (SubsetHvar.regionListBytes st.2.axisCount st.2.regions))
+    ⟨pk, ⟨be16 st.1 ++ be32 0, []⟩⟩
+  let s := foldChildren 4 (st.2.subs.map fun t => leaf (SubsetHvar.subBytes t)) (s.embed (be16 st.2.subs.length))
+  (s.cur, s.pk)
+
+def encOpt {α : Type} (t : Option α) (w pos : Nat) (enc : α → Child) (s : S) : S :=
+  match t with
+  | none => s
+  | some x => linkChild w pos (enc x) s
+
+/-- the root object and the packed objects of `subset_gdef`: header of 12 / 14 / 18 bytes (after the
+`revert_snapshot`s of the downgrade), sub-tables pushed store first -/
+def encodeGdefObj (o : GdefOut) : LObj × Packed :=
+  let hdr := be16 o.major ++ be16 o.minor ++ List.replicate 8 0 ++
+    (if o.varStore.isSome then List.replicate 6 0 else if o.markGlyphSets.isSome then List.replicate 2 0 else [])
+  let s : S := ⟨[], ⟨hdr, []⟩⟩
+  let s := encOpt o.varStore 4 14 encStore s
+  let s := encOpt o.markGlyphSets 2 12 encMarkSets s
+  let s := encOpt o.markAttachClassDef 2 10 (fun cd => leaf (classDefBytes cd)) s
+  let s := encOpt o.ligCaretList 2 8 encLig s
+  let s := encOpt o.attachList 2 6 encAttach s
+  let s := encOpt o.glyphClassDef 2 4 (fun cd => leaf (classDefBytes cd)) s
+  (s.cur, s.pk)
 
 /-! ## `end_serialize` / `copy_bytes`: object layout and offset resolution -/
 
@@ -442,16 +479,21 @@ inductive Outcome where
   | trap
   deriving Repr, DecidableEq
 
+/-- the bytes of a written GDEF table; `none` = a 16-bit offset overflows -/
+def encodeGdef (o : GdefOut) : Option (List Nat) :=
+  let r := encodeGdefObj o
+  layout r.1 r.2
+
 /-- `Gdef::subset` + lib.rs `subset`: an `Err` without serializer error omits the table; an offset
 overflow (no repacker) leaves `copy_bytes` empty, which also omits it -/
 def subsetGdef (p : LPlan) (g : GdefIn) : Outcome :=
-  match subsetGdefObj p g with
+  match subsetGdefSem p g with
   | .error .empty => .dropped
   | .error .soft => .dropped
   | .error .hard => .fail
   | .error .trap => .trap
-  | .ok (root, pk) =>
-    match layout root pk with
+  | .ok o =>
+    match encodeGdef o with
     | none => .dropped
     | some bs => .ok bs
 
